@@ -34,7 +34,9 @@ const Type& MINExpression::type(Context &ctx) const
   const Type& t1 = _args[1]->type(ctx);
   if (t0 == Type::INTEGER && t1 == Type::INTEGER)
     return Value::type_integer;
-  return Value::type_numeric;
+  if (t0 == Type::NUMERIC || t1 == Type::NUMERIC)
+    return Value::type_numeric;
+  return Value::type_no_type;
 }
 
 Value& MINExpression::value(Context & ctx) const
